@@ -11,6 +11,7 @@ mod suite_crash;
 mod suite_db;
 mod suite_fault;
 mod suite_filter;
+mod suite_lock;
 mod suite_log;
 mod suite_sched;
 mod suite_table;
@@ -50,6 +51,7 @@ fn main() {
         "fault" => suite_fault::run_fault,
         "corrupt" => suite_corrupt::run_corrupt,
         "sched" => suite_sched::run_sched,
+        "lock" => suite_lock::run_lock,
         _ => panic!("unknown suite {}", suite),
     };
     let timeout = Duration::from_secs(
